@@ -129,7 +129,7 @@ fn worker(case: Arc<Case>, i: usize, seed: u64, pause_pm: u64, cs_work: u64, mir
             // compiler from folding the read-modify-write away. These are plain accesses.
             unsafe {
                 let occ = ptr::read_volatile(&raw const (*p).occupancy);
-                ptr::write_volatile(&raw mut (*p).occupancy, occ + 1);
+                ptr::write_volatile(&raw mut (*p).occupancy, occ.wrapping_add(1));
                 if occ != 0 {
                     case.occupancy_violations.fetch_add(1, Ordering::Relaxed);
                 }
@@ -140,9 +140,9 @@ fn worker(case: Arc<Case>, i: usize, seed: u64, pause_pm: u64, cs_work: u64, mir
                 if cs_work > 0 && rng.chance(1, 40) {
                     std::thread::yield_now();
                 }
-                ptr::write_volatile(&raw mut (*p).count, c + 1);
+                ptr::write_volatile(&raw mut (*p).count, c.wrapping_add(1));
                 let occ = ptr::read_volatile(&raw const (*p).occupancy);
-                ptr::write_volatile(&raw mut (*p).occupancy, occ - 1);
+                ptr::write_volatile(&raw mut (*p).occupancy, occ.wrapping_sub(1));
             }
         }
         case.outside_occupancy.fetch_sub(1, Ordering::Relaxed);
@@ -278,6 +278,9 @@ fn run_case(cfg: &CaseCfg, seed: u64, miri: bool, watchdog: Duration) -> (Arc<Ca
 fn main() -> ExitCode {
     let args = Args::parse();
     let miri = is_miri(&args);
+    if !miri && args.get("child").is_none() {
+        return mon_afc::supervise(&args, &["C43"]);
+    }
     let m = Monitor::new(
         "C43",
         "cases = (threads 2..16, N lock/unlock pairs, critical-section work, pause-point probability) on the real futex mutex (hook H2); plain volatile counter + occupancy inside the mutex data, relaxed occupancy counter outside; pause hook with seeded yields/sleeps at the three points around the futex calls; stuck-state detector natively, Miri deadlock detection under Miri; non-trivial = distinct (threads, work, pause level) cases in which the sleeping path was entered",
